@@ -37,6 +37,7 @@ table = [
  ("config values keep everything", "C20", "bounded[configCmd_RunE]: value containing '=' truncated; Config.load#bounds[splitText[1]] and #mapnil"),
  ("add checks and looks up every argument under the name", "C17", "cmd.addCmd.RunE#pre@add[not-meta]#1 and bounded[addCmd_RunE]: 'add /abs/path/.goit/HEAD' and 'add ../<dir>/.goit/config' staged files inside .goit (the ignore check saw the spelling, the staging code the resolved path)"),
  ("add stores the blob before the index names it", "C16", "cmd.add#post[blob-before-index]: the index was written before the blob, so a failed object write left a staged path without its blob"),
+ ("status compares every tracked file with its staged blob", "C13", "bounded[statusCmd_RunE]: an edit to a tracked file that an ignore pattern matches was not reported as modified (the comparison ran over the ignore-filtered walk)"),
  ("restore checks every argument", "C18", "bounded[restoreCmd_RunE]: refused only after earlier arguments had been restored"),
 ]
 log = subprocess.run(["git","-C","/repo","log","--format=%h %s"],capture_output=True,text=True).stdout.splitlines()
